@@ -435,6 +435,20 @@ def gen_contention(rng):
             spec['actions'].append([t, pr, 'block', rng.choice(ps), rng.random() < 0.5])
     if rng.random() < 0.35:
         spec['actions'] += fail_during_maint(rng, ps)
+    if rng.random() < 0.25:
+        # deliveries: the sources hold few parts and are topped up by low-priority events, several of them at the same
+        # instant, so that a (zero-cycle) processor gets parts again after its deferred release event of that instant
+        for d in devs:
+            if d['k'] == 'S':
+                d['c'] = rng.choice([0, 0, 0.25])
+                d['budget'] = rng.choice([0, 1, 2])
+        for d in devs:
+            if d['k'] == 'P' and rng.random() < 0.6:
+                d['c'] = 0
+        slots = rng.sample([1, 2, 3, 4.5, 5, 6, 8, 11], 3)
+        for i in range(rng.choice([3, 5, 8])):
+            spec['actions'].append([rng.choice(slots), rng.choice([2, 2, 2, 3, 5, 4.5, 1.5, 7]), 'adjust', rng.choice(srcs),
+                                    rng.choice([1, 1, 2, 3])])
     spec = finish(rng, spec, 'contention', T=rng.choice([8, 15, 30]))
     return spec
 
